@@ -59,9 +59,11 @@ func parseDir(dir string) map[string]*ast.File {
 
 func funcs(files map[string]*ast.File) map[string]*ast.FuncDecl {
 	res := map[string]*ast.FuncDecl{}
+	collectRegexVars(files)
 	for _, f := range files {
 		for _, d := range f.Decls {
 			if fd, ok := d.(*ast.FuncDecl); ok {
+				pkgOfFunc[fd] = f.Name.Name
 				// a package-level function wins over a method of the same name
 				if old, exists := res[fd.Name.Name]; exists && old.Recv == nil && fd.Recv != nil {
 					continue
@@ -120,6 +122,19 @@ func cpuOpTable(fn *ast.FuncDecl) (t6502, t65c02 map[int]string, err error) {
 		switch v := rhs.(type) {
 		case *ast.SelectorExpr:
 			// (*CPU6502).name
+			if knownHandlers != nil && !knownHandlers[v.Sel.Name] {
+				// a method the model has no definition for: if it is nothing but `return <int>, <bool>` it is the
+				// same thing as the function literals used for BRK and NOP
+				if fd, ok := allCpuFuncs[v.Sel.Name]; ok && fd.Body != nil && len(fd.Body.List) == 1 {
+					if r, ok := fd.Body.List[0].(*ast.ReturnStmt); ok && len(r.Results) == 2 {
+						n, ok1 := intLit(r.Results[0])
+						id, ok2 := r.Results[1].(*ast.Ident)
+						if ok1 && ok2 && (id.Name == "true" || id.Name == "false") {
+							return fmt.Sprintf("lit%d%s", n, id.Name), nil
+						}
+					}
+				}
+			}
 			return v.Sel.Name, nil
 		case *ast.FuncLit:
 			// func(c *CPU6502) (uint64, bool) { return N, B }
@@ -202,6 +217,9 @@ func cpuOpTable(fn *ast.FuncDecl) (t6502, t65c02 map[int]string, err error) {
 // knownHandlers: the constructors of Verif.H (read from Verif/Impl/HandlerNames.lean next to the output
 // directory); nil when that file cannot be read
 var knownHandlers map[string]bool
+
+// allCpuFuncs: every function of package cpu by name (for looking at the body of an unknown handler)
+var allCpuFuncs map[string]*ast.FuncDecl
 
 func loadKnownHandlers(outDir string) {
 	data, err := os.ReadFile(filepath.Join(outDir, "..", "Impl", "HandlerNames.lean"))
@@ -383,6 +401,7 @@ func doCpu(repo, outDir string) {
 	loadKnownHandlers(outDir)
 	files := parseDir(filepath.Join(repo, "cpu"))
 	fns := funcs(files)
+	allCpuFuncs = fns
 	newFn, ok := fns["New6502"]
 	if !ok {
 		fail("cpu.optable", "New6502 not found")
